@@ -1,0 +1,20 @@
+//go:build verif
+
+// Contracts for package cmd, checked by /verif/gvc (contract-based deductive
+// verification).  This file is comment-only: with the build tag off it does
+// not exist for the compiler, with it on it adds nothing but a package clause.
+package cmd
+
+//@ import "path"
+//@ import "path/filepath"
+//
+//@ spec func isDirTarget(target string) bool { return fsExists(target) && fsIsDir(target) }
+//
+//@ func doPackage(configPath, target, packager string) (err error)
+//@   requires !ghostFlag("failed") && !ghostFlag("outputPresent") && !ghostFlag("outputCreated") && !ghostFlag("clockRead") && !ghostFlag("envRead")
+//@   ensures [C15] an-explicit-file-target-is-written-as-named: implies(err == nil && target != "" && !isDirTarget(target), globStr("createdPath") == target)
+//@   ensures [C15] a-directory-target-gets-the-conventional-name-inside: implies(err == nil && target != "" && isDirTarget(target), globStr("createdPath") == path.Join(target, lastStr("ext:github.com/goreleaser/nfpm/v2.Packager.ConventionalFileName")))
+//@   ensures [C15] no-target-means-the-conventional-name-in-the-current-directory: implies(err == nil && target == "", globStr("createdPath") == lastStr("ext:github.com/goreleaser/nfpm/v2.Packager.ConventionalFileName"))
+//@   ensures [C15] the-packager-is-guessed-only-when-none-is-given: implies(err == nil && packager != "", globStr("packagerAsked") == packager) && implies(err == nil && packager == "", globStr("packagerAsked") == filepath.Ext(target)[1:])
+//@   ensures [C06] success-means-a-complete-file: implies(err == nil, !ghostFlag("failed") && ghostFlag("outputPresent"))
+//@   ensures [C06] failure-leaves-no-file-at-the-target: implies(err != nil && ghostFlag("outputCreated"), !ghostFlag("outputPresent"))
